@@ -208,6 +208,11 @@ func (w *w4) faultsFiredTotal() int {
 	return n
 }
 
+// w4OwnErrorReply: keys on the proxy's group-routing and plain-forwarding paths for which it can build an error
+// reply of its own (ListOffsets, OffsetCommit, OffsetFetch, JoinGroup, Heartbeat, LeaveGroup, SyncGroup,
+// DescribeGroups, ListGroups, OffsetForLeaderEpoch).
+var w4OwnErrorReply = map[int16]bool{2: true, 8: true, 9: true, 11: true, 12: true, 13: true, 14: true, 15: true, 16: true, 23: true}
+
 // sweepClient sends, key by key, a request at every advertised version (and a few outside the range).
 func (w *w4) sweepClient(id int, op simrt.Op) {
 	troubled := w.cfg("troubled", 0) == 1
@@ -299,9 +304,17 @@ func (w *w4) sweepClient(id int, op simrt.Op) {
 			off += 4 + n
 		}
 		matched := 0
-		for _, s := range reqs {
+		for i, s := range reqs {
 			data, ok := replies[s.corr]
 			if !ok {
+				// Requests the proxy routes to a backend (group APIs, and what it forwards as is) are answered by the
+				// proxy itself with an error reply of the request's version when the backend cannot be reached or the
+				// proxy is not ready - after which it closes the connection. So the FIRST request of a connection has
+				// no excuse for going unanswered if it is of such a key (later ones may have met a closed connection).
+				if i == 0 && s.advertised && w4OwnErrorReply[k.ApiKey] {
+					w.sim.Fail("C11", "proxy-silent-after-backend-failure", "%s v%d is advertised by the proxy; the backend could not serve it (faults fired: %v, proxy ready=%v) and the proxy closed the connection without the error reply it builds for this key", kmsg.NameForKey(k.ApiKey), s.req.GetVersion(), w.sim.Stats.FaultsFired, w.p.isReady())
+					return
+				}
 				if s.advertised && clean {
 					w.sim.Fail("C11", "proxy-no-reply", "%s v%d is advertised by the proxy but got no reply (proxy ready=%v; nothing injected that could excuse it)", kmsg.NameForKey(k.ApiKey), s.req.GetVersion(), w.p.isReady())
 					return
